@@ -381,9 +381,10 @@ def seed_case(spec):
         impl = 'err ' + str(v)
     else:
         v = np.asarray(v)
-        if np.asarray(seed.data).ndim == 1:
-            v = v[None]
         dense = seed_dense(spec['which'], g, tb, target, spec)         # all-to-all on the target's values
+        k = 1 if np.asarray(seed.data).ndim == 1 else np.asarray(seed.data).shape[0]
+        if v.size == k * dense[0].size:         # the analyzers squeeze: a single seed row (1-d, or 2-d with one row) loses its axis
+            v = v.reshape((k,) + dense[0].shape)
         toks = []
         for i in range(v.shape[0]):
             m = [r for r in range(nch) if C().close(v[i], dense[r], 1e-8)]
@@ -972,8 +973,15 @@ def r2_oracle(rng, tier, seed):
             sp = gen_seed_spec(rng, k + seed, which)
             if seed_setup(sp)[2] is None:
                 fails += judge_seed(Case('', '', '', meta={'op': 'seedrows', 'spec': sp}))
-    fails += concat_alias_experiments(rng)
-    fails += reader_failure_experiments(rng)
+    for nm, fn in (('concatenate_time_series/alias', concat_alias_experiments), ('time_series_from_file/failure', reader_failure_experiments)):
+        try:
+            fails += fn(rng)
+        except Exception as e:  # noqa     a valid call of the library raised inside the experiment: that is the failing input
+            import traceback
+            tb = traceback.extract_tb(e.__traceback__)
+            where = ' <- '.join('%s:%d' % (f.filename.split('/')[-1], f.lineno) for f in tb[-3:][::-1])
+            fails.append(Failure(nm + '/valid-call-raises', 'an ordinary call (two files, one 3 x 3 coordinate array, TR=2.0; or a concatenation of runs) raised %r [%s]' % (e, where),
+                                 {'meta': {'op': 'reader-failure' if 'file' in nm else 'concat-alias'}}))
     return fails, stats
 
 
@@ -987,8 +995,11 @@ def r2_replay(m):
         return failure_experiments(m['spec'], m['name'], rng)[0]
     if op == 'alias':
         return alias_experiments(m['spec'], m['name'], rng)[0]
-    if op == 'concat-alias':
-        return concat_alias_experiments(rng)
-    if op == 'reader-failure':
-        return reader_failure_experiments(rng)
+    if op in ('concat-alias', 'reader-failure'):
+        fn = concat_alias_experiments if op == 'concat-alias' else reader_failure_experiments
+        try:
+            return fn(rng)
+        except Exception as e:  # noqa
+            nm = 'concatenate_time_series/alias' if op == 'concat-alias' else 'time_series_from_file/failure'
+            return [Failure(nm + '/valid-call-raises', 'an ordinary call raised %r' % e, {'meta': m})]
     return None
